@@ -65,7 +65,16 @@ def short(x, n=300):
     return s if len(s) <= n else s[:n] + '...'
 
 
+def engine_runner(prop):
+    def run(tier, seed, workdir):
+        import engine_props
+        return engine_props.run(prop, tier, seed)
+    return run
+
+
 RUNNERS = {'C10': runner_c10}
+for _p in ('C01', 'C02', 'C03', 'C05', 'C08'):
+    RUNNERS[_p] = engine_runner(_p)
 
 
 def check(prop, tier, seed):
@@ -93,6 +102,7 @@ def check(prop, tier, seed):
     if not [b for b in broken if b[0] in ('model-build', 'harness-build')]:
         try:
             result = RUNNERS[prop](tier, seed, workdir)
+            broken += result.get('broken', [])
         except Exception as e:  # a crashing run is a broken correspondence, not a pass
             broken.append(('correspondence', f"{type(e).__name__}: {e}\n{traceback.format_exc()[-600:]}"))
     if tier == 'thorough' and coq['built']:
@@ -148,5 +158,6 @@ def replay(prop, path):
             print(f"op#{d['op']} model={short(d['model'])} impl={short(d['impl'])}")
         print("REPRODUCED" if r['disagreements'] else "NOT-REPRODUCED")
         return 1 if r['disagreements'] else 0
-    import engine
-    return engine.replay(prop, case, workdir)
+    import engine_props
+    common.ocaml_build(); common.harness_build()
+    return engine_props.replay(prop, case, workdir)
